@@ -640,7 +640,7 @@ func c09(c *Ctx) {
 			c.checkConsume(fn, call, nm, n93)
 		}
 	}
-	r.Floor("R9.3", n93, 19)
+	r.Floor("R9.3", n93, 15)
 
 	// ---- R9.4
 	n94 := 0
